@@ -142,6 +142,16 @@ def check_bulk(ck, cases):
                 ck.count('bulk:config-rejected')
                 continue
             runs.sort(key=lambda r: json.dumps([str(x) for x in dc.run_key(r)]))
+            # every configured combination is a run of its own (after the documented normalisation)
+            want_runs = len(info['bench']) * len(info.get('executors') or {1: 1})
+            for key in ('cores', 'input_sizes', 'variable_values', 'tags'):
+                conf = (info.get('dims') or {}).get(key)
+                if conf:
+                    want_runs *= len(set((type(dc.norm_dim(key, v)).__name__, dc.norm_dim(key, v)) for v in conf))
+            if len(runs) != want_runs:
+                ck.oracle_fail('placeholder_value', dict(case), {'configured_runs': want_runs, 'compiled_runs': len(runs),
+                                                                'dims': info.get('dims')},
+                               {'what': 'configured values collapse into one run'})
             w = dc.world(base, {'HOME': os.environ['HOME']} if 'HOME' in os.environ else {})
             for i, run in enumerate(runs):
                 c = case['completed'][i % len(case['completed'])]
